@@ -22,6 +22,7 @@ from .common import ANY, COMPOSITE, SERVICE, DELIMITED, SERIALIZABLE, STRING_X, 
 from . import expr as E
 
 P = ["C13"]
+PA_ = ["C13", "C04"]
 ARRAY = "pydsdl._serializable._array.ArrayType"
 FIXED = "pydsdl._serializable._array.FixedLengthArrayType"
 VARIABLE = "pydsdl._serializable._array.VariableLengthArrayType"
@@ -50,14 +51,14 @@ inline_ok(ARRAY + ".element_type", ARRAY + ".capacity", COMPOSITE + ".attributes
 
 
 # ------------------------------------------------------------------------------------------------ the source of the TypeError
-@contract(SERVICE + ".bit_length_set", props=P)
+@contract(SERVICE + ".bit_length_set", props=PA_)
 class _ServiceBls:
     """A service type has no layout of its own: asking for it is a TypeError (documented behaviour)."""
     never_returns = True
     raises = {"TypeError": lambda s: True}
 
 
-@contract(SERIALIZABLE + ".bit_length_set", props=P)
+@contract(SERIALIZABLE + ".bit_length_set", props=PA_)
 class _BlsIface:
     returns = ObjOf(BLS)
     verify = False
@@ -66,21 +67,21 @@ class _BlsIface:
     raises = {"TypeError": lambda s: is_service(s.self)}
 
 
-@contract(BLS + ".max", props=P)
+@contract(BLS + ".max", props=PA_)
 class _BlsMax:
     returns = Int
     verify = False
     assumed = "BitLengthSet.max returns an int (C01)"
 
 
-@contract(DELIMITED + ".extent", props=P)
+@contract(DELIMITED + ".extent", props=PA_)
 class _DelimitedExtent:
     returns = Int
     verify = False
     assumed = "DelimitedType.extent returns the stored extent (verified under C02)"
 
 
-@contract(COMPOSITE + ".extent", props=P)
+@contract(COMPOSITE + ".extent", props=PA_)
 class _CompositeExtent:
     """The inherited `extent` asks for the layout: TypeError exactly for service types."""
     returns = Int
@@ -89,43 +90,71 @@ class _CompositeExtent:
 
 
 # ------------------------------------------------------------------------------------------------ attributes of type values
-@contract(SERIALIZABLE + "._attribute", props=P)
+PA = ["C13", "C04"]  # the attribute chain: dispatch / error side (the values of the layout intrinsics are C08's subject)
+
+
+def name_is(name, *texts):
+    return OR(*[EQ(E.sv(name), t) for t in texts])
+
+
+@contract(SERIALIZABLE + "._attribute", props=PA)
 class _SerializableAttribute:
+    """Every serializable type offers `_bit_length_` (a service type does not: it has no layout); nothing else."""
     returns = ObjOf(ANY)
     verify = False
-    assumed = ("exception classes only: `_bit_length_` yields a Set of rationals or - for a service type, whose TypeError is "
-               "caught in the body - falls through to Any._attribute (UndefinedAttributeError); Set.__init__ cannot fail on a "
-               "non-empty bit length set.  Body not verified (iteration over a BitLengthSet is not modelled)")
+    assumed = ("dispatch side only: `_bit_length_` is defined unless the receiver is a service type (whose TypeError is caught in "
+               "the body), every other name falls through to Any._attribute; body not verified here (iteration over a "
+               "BitLengthSet is not modelled; Set.__init__ cannot fail on a non-empty bit length set); the value is C08's subject")
     params = dict(name=ObjOf(STRING_X))
-    raises_if = {"UndefinedAttributeError": lambda s: True}
+    raises = {"UndefinedAttributeError": lambda s: NOT(AND(name_is(s.name, "_bit_length_"), NOT(is_service(s.self))))}
 
 
-@contract(COMPOSITE + "._attribute", props=P)
+def CONSTANTS(t):
+    """the constants of a composite, in declaration order"""
+    from pyvc.speclib import FILTER
+
+    if smt():
+        return FILTER(t._attributes, lambda a: ISINST(a, "Constant"))
+    return t.constants
+
+
+def has_constant_named(t, name):
+    from pyvc.speclib import EXISTS_IDX
+
+    return EXISTS_IDX(CONSTANTS(t), lambda i, c: EQ(c._name if smt() else c.name, E.sv(name)))
+
+
+def composite_attribute_defined(t, name):
+    """`T.NAME` on a composite type value: a constant of that name, or a layout intrinsic - which a service type lacks"""
+    return OR(has_constant_named(t, name), AND(name_is(name, "_extent_", "_bit_length_"), NOT(is_service(t))))
+
+
+@contract(COMPOSITE + "._attribute", props=PA)
 class _CompositeAttribute:
-    """`T.NAME` on a composite type value: a constant, `_extent_`, or what the base class offers; never anything but
-    an undefined-attribute error - in particular for a service type, which has no extent."""
+    """Names defined on a composite type value: its constants, `_extent_`, and `_bit_length_` from the base class;
+    UndefinedAttributeError for everything else - in particular for the intrinsics of a service type."""
     params = dict(name=ObjOf(STRING_X))
     returns = ObjOf(ANY)
     self_classes = ["StructureType", "UnionType", "DelimitedType", "ServiceType"]
-    raises_if = {"UndefinedAttributeError": lambda s: True}
+    raises = {"UndefinedAttributeError": lambda s: NOT(composite_attribute_defined(s.self, s.name))}
 
     def post(s):
-        return {"extent-is-rational": IMPLIES(AND(EQ(E.sv(s.name), "_extent_"), NOT(is_service(s.self)),
-                                                  NOT(_has_constant_named(s.self, s.name))),
+        from pyvc.speclib import EXISTS_IDX
+
+        return {"constant-value": IMPLIES(has_constant_named(s.self, s.name), lambda: EXISTS_IDX(
+                    CONSTANTS(s.self), lambda i, c: AND(EQ(c._name if smt() else c.name, E.sv(s.name)),
+                                                       lambda: (s.result.ref == c._value.ref) if smt() else s.result is c.value))),
+                "extent-is-rational": IMPLIES(AND(name_is(s.name, "_extent_"), NOT(is_service(s.self)),
+                                                  NOT(has_constant_named(s.self, s.name))),
                                               lambda: E.is_rat(s.result))}
-
-
-def _has_constant_named(t, name):
-    from pyvc.speclib import EXISTS_IDX
-
-    if smt():
-        return EXISTS_IDX(t._attributes, lambda i, a: AND(ISINST(a, "Constant"), lambda: EQ(a._name, E.sv(name))))
-    return any(c.name == name.native_value for c in t.constants)
 
 
 @loop_invariant(COMPOSITE + "._attribute", loop=0)
 def _inv_composite_attribute(s):
-    return {}
+    from pyvc.speclib import FORALL_IDX
+
+    # no constant met so far carries the requested name
+    return {"not-found-yet": FORALL_IDX(s.seq, lambda j, c: NOT(EQ(c._name, E.sv(s.name))), hi=s.i, name="j")}
 
 
 # ------------------------------------------------------------------------------------------------ arrays
@@ -229,3 +258,57 @@ def _not_none(r):
 
 
 SERVICE_AGGREGATION_CHECKED = _register_service_aggregation()
+
+
+# ------------------------------------------------------------------------------------------------ the attribute operator
+def attribute_defined(v, name_text):
+    """Which names are defined on which operand class (dispatch table of the `.` operator)."""
+    nm = lambda *ts: OR(*[EQ(name_text, t) for t in ts])
+    is_comp = ISINST(v, COMPOSITE)
+    return OR(AND(E.is_set(v), nm("min", "max", "count")),
+              AND(is_comp, lambda: OR(_has_constant_text(v, name_text), AND(nm("_extent_", "_bit_length_"), NOT(is_service(v))))),
+              AND(ISINST(v, SERIALIZABLE), NOT(is_comp), nm("_bit_length_")))
+
+
+def _has_constant_text(t, text):
+    from pyvc.speclib import EXISTS_IDX
+
+    t = AS(t, COMPOSITE)
+    return EXISTS_IDX(CONSTANTS(t), lambda i, c: EQ(c._name if smt() else c.name, text))
+
+
+def _name_text(n):
+    """the attribute name as text: `attribute` accepts a native str or a String"""
+    if smt():
+        from pyvc.values import Obj
+
+        return E.sv(n) if isinstance(n, Obj) else n
+    return n.native_value if hasattr(n, "native_value") else n
+
+
+@contract(E.OPMOD + "attribute", props=PA)
+class _OpAttribute:
+    """`value.NAME`: Boolean / Rational / String values have no attributes; a Set has min, max, count; a serializable type
+    has `_bit_length_`; a composite type its constants, `_extent_` and `_bit_length_` (a service type only its constants).
+    Everything else is an UndefinedAttributeError.  (min / max of a set of non-rationals with two or more members is an
+    UndefinedOperatorError: the comparison is undefined.)"""
+    instances = [{"name": Str}, {"name": ObjOf(STRING_X)}]
+    params = dict(value=ObjOf(ANY))
+    returns = ObjOf(ANY)
+    raises = {"UndefinedAttributeError": lambda s: NOT(attribute_defined(s.value, _name_text(s.name)))}
+    raises_if = {"UndefinedOperatorError": lambda s: AND(E.is_set(s.value), lambda: NOT(E.ET_IS(s.value, RATIONAL_X)),
+                                                         OR(EQ(_name_text(s.name), "min"), EQ(_name_text(s.name), "max")))}
+
+    def pre(s):
+        return {"elements-are-not-sets": IMPLIES(E.is_set(s.value), lambda: NOT(E.ET_IS(s.value, E.SET_X)))}
+
+    def post(s):
+        t = _name_text(s.name)
+        return {"count": IMPLIES(AND(E.is_set(s.value), EQ(t, "count")),
+                                 lambda: AND(E.is_rat(s.result), lambda: E.rv(s.result) == E.CARD(s.value))),
+                "min": IMPLIES(AND(E.is_set(s.value), EQ(t, "min"), lambda: E.ET_IS(s.value, RATIONAL_X)),
+                               lambda: AND(E.MEMBER_OF(s.result, s.value),
+                                           E.FORALL_MEMBER(s.value, lambda x: E.rv(s.result) <= E.rv(x)))),
+                "max": IMPLIES(AND(E.is_set(s.value), EQ(t, "max"), lambda: E.ET_IS(s.value, RATIONAL_X)),
+                               lambda: AND(E.MEMBER_OF(s.result, s.value),
+                                           E.FORALL_MEMBER(s.value, lambda x: E.rv(s.result) >= E.rv(x))))}
